@@ -87,6 +87,9 @@ class Elem:
         self.vertices = [Vtx(t0, x0), Vtx(t0, x1), Vtx(t1, x1), Vtx(t1, x0)]
         self.h_t = t1 - t0
         self.h_x = x1 - x0
+        self.parent = None
+        self.children = []
+        self.levels = (0, 0)
         Elem._n += 1
         self.glob_idx = Elem._n
         self.name = name or 'E%d' % Elem._n
